@@ -35,6 +35,12 @@ def build_pt(inp, name, d, N, bond, rank, transforms, dt=0.1):
     if transforms == "full":
         tin = inp.arr(name + "Ti", (D, D))
         tout = inp.arr(name + "To", (D, D))
+    elif transforms in ("in", "out"):
+        # only one of the two transforms present
+        if transforms == "in":
+            tin = _sparse_transform(inp, name + "Ti", D, shift=1)
+        else:
+            tout = _sparse_transform(inp, name + "To", D, shift=2)
     elif transforms:
         # sparse symbolic transforms (generalised permutation + one extra concrete entry):
         # keeps the polynomial degree/size in reach, still detects a missing, transposed,
@@ -81,6 +87,10 @@ def _sparse_transform(inp, name, D, shift):
 
 
 def _apply_tr(full, tin, tout):
+    if tin is None:
+        tin = np.identity(full.shape[2])
+    if tout is None:
+        tout = np.identity(full.shape[3])
     # convention fixed by PtTempo._init_*_process_tensor (proved physical in C05/H1):
     # out[a,b,k,l] = sum_ij tin[k,i] full[a,b,i,j] tout[j,l]
     t = np.tensordot(full, tin, axes=([2], [1]))      # a b j k
@@ -100,7 +110,7 @@ class H1(Case):
         self.nenv, self.N, self.bond, self.rank, self.transforms, self.controls = nenv, N, bond, rank, transforms, controls
         self.d = d
         self.num_steps = num_steps
-        self.id = "H1/env%d_N%d_b%d_r%d_%s_%s%s%s" % (nenv, N, bond, rank, "tr" if transforms else "notr", controls,
+        self.id = "H1/env%d_N%d_b%d_r%d_%s_%s%s%s" % (nenv, N, bond, rank, ("tr" if transforms is True else "tr" + str(transforms)) if transforms else "notr", controls,
                                                       "" if num_steps is None else "_n%d" % num_steps, "" if d == 2 else "_d%d" % d)
         self.bounds = {"d": d, "envs": nenv, "N": N, "bond": bond, "rank": rank, "transforms": transforms, "controls": controls}
         self.timeout_s = 300
@@ -279,7 +289,8 @@ def cases(tier):
     cs += [H1(0, 2, 1, 4, False, "prepost"), H1(1, 2, 2, 4, False, "none"), H1(1, 2, 2, 3, False, "prepost"),
            H1(1, 2, 2, 4, True, "ends"), H1(2, 2, 2, 4, False, "none"), H1(2, 2, 1, 3, True, "stack"),
            H1(3, 2, 1, 4, False, "none"), H1(1, 3, 2, 4, False, "none", num_steps=2),
-           H1(2, 2, 2, 4, False, "stack"), H1(1, 3, 2, 3, True, "ends", num_steps=1)]
+           H1(2, 2, 2, 4, False, "stack"), H1(1, 3, 2, 3, True, "ends", num_steps=1),
+           H1(1, 2, 2, 4, "out", "none"), H1(1, 2, 2, 3, "in", "none"), H1(2, 2, 1, 4, "out", "prepost")]
     cs += [H2(2, 2, 2), H4(2), H4(3), H5(3), H5(4)]
     cs += [H3(2, None), H3(3, 1)]
     if tier == "thorough":
